@@ -44,6 +44,8 @@ ev['violations'] = sum(p['violations'] for p in parts)
 ev['wall_s'] = max(p['wall_s'] for p in parts)
 lv = [p['level'] for p in parts if (p['coverage'].get('obligations') or 0) > 0]
 ev['level'] = 'proof' if lv and all(x == 'proof' for x in lv) else 'other'
+if json.load(open(os.path.join(root, 'checks', f'{pid}.json'))).get('level') == 'other':
+    ev['level'] = 'other'
 cfg = json.load(open(os.path.join(root, 'checks', f'{pid}.json')))
 rc = 0
 mn = cfg.get('min_lock_sweep_functions', 0)
